@@ -30,6 +30,11 @@ pub mod rust_util {
 pub mod policy {
     pub use crate::policy::marksweepspace::native_ms::mi_bin;
     pub use crate::policy::sft_map::{SFTMap, SFTSpaceMap};
+    /// Compressor forwarding metadata.
+    pub mod compressor {
+        pub use crate::policy::compressor::forwarding::verif::*;
+        pub use crate::policy::compressor::forwarding::ForwardingMetadata;
+    }
     /// Immix regions and states.
     pub mod immix {
         pub use crate::policy::immix::block::{Block, BlockState};
